@@ -201,13 +201,36 @@ def run(repo: Repo, chk: Check, thorough: bool = False) -> None:
                 continue
             ok, why = _interp_guard(dep, cfgd, c, v.id, validators)
             chk.ob('R10.5', key, ok, why, repo.loc(dep.mod, c))
+    # the validator quantifies over *every* dotted part
+    for vn in sorted(validators):
+        vf = repo.funcs.get(f'{dep.qn}.{vn}')
+        if vf is None:
+            continue
+        idc = [c for c in calls_in(vf) if call_name(c) == 'isidentifier']
+        if not idc:
+            chk.ob('R10.5', f'deprecatedToUsefulText.{vn} :: identifier test', False, 'the validator no longer tests isidentifier()', vf.loc)
+        for c in idc:
+            quant = None
+            for p in parents(c):
+                if isinstance(p, ast.Call) and call_name(p) in ('all', 'any'):
+                    quant = call_name(p)
+                    break
+                if isinstance(p, ast.For):
+                    neg = any(isinstance(t, ast.UnaryOp) and isinstance(t.op, ast.Not) for q in parents(c) if isinstance(q, ast.If) for t in [q.test])
+                    quant = 'all' if neg else 'any'
+                    break
+            ok = quant == 'all'
+            chk.ob('R10.5', f'deprecatedToUsefulText.{vn} :: every dotted part must be an identifier', ok,
+                   'all(part.isidentifier() ...)' if ok else
+                   f'the validator accepts a text when {"some" if quant == "any" else "not every"} dotted part is an identifier: '
+                   'the other parts are interpolated into reST unchecked (markup injection through a decorator string)', repo.loc(vf.mod, c))
     vt = repo.func('pydoctor.extensions.deprecate.versionToUsefulObject')
     raises = [n for n in vt.walk() if isinstance(n, ast.Raise) and 'ValueError' in norm(n)]
     ints = [c for c in calls_in(vt) if call_name(c) == 'get_int_value']
     chk.ob('R10.5', 'versionToUsefulObject :: version parts are type checked', len(raises) >= 2 and len(ints) >= 3,
            f'{len(ints)} get_int_value() extractions, {len(raises)} ValueError guards' if len(raises) >= 2 and len(ints) >= 3 else
            'version parts are no longer restricted to ints / "NEXT"', vt.loc)
-    chk.require('R10.5', 7)
+    chk.require('R10.5', 8)
 
     # ------------------------------------------------------------------ R10.6
     themes = load_templates(Path(repo.root))
